@@ -607,6 +607,7 @@ void notef(const char* fmt, ...)
   vsnprintf(b, sizeof b, fmt, ap);
   va_end(ap);
   g_notes.push_back(b);
+  fprintf(stderr, "NOTE: %s\n", b); // survives an abnormal end of the run (captured stderr)
 }
 void count(const char* name, uint64_t inc) { simint::count(name, inc); }
 void state_mix(uint64_t v)
@@ -684,6 +685,15 @@ int pthread_create(pthread_t* t, const pthread_attr_t* a, void* (*fn)(void*), vo
   }
   if (ds == PTHREAD_CREATE_DETACHED) n.detached = true; // real thread stays joinable; never joined => leaked at _exit
   *t = n.real;
+  if (cfg.create_stall_permille && cfg.stall_max_ns && raw_draw(sim::S, 1000) >= 1000 - (uint64_t)cfg.create_stall_permille)
+  {
+    // the creator is descheduled right after clone(): the new thread runs first, possibly for a long time
+    uint64_t d = 1 + raw_draw(sim::S, cfg.stall_max_ns);
+    g_stalled += d;
+    g_stalls++;
+    block(B_STALL, nullptr, g_now + d, 0x101);
+    return 0;
+  }
   point(0x100);
   return 0;
 }
@@ -1220,8 +1230,10 @@ size_t _Hash_bytes(const void* ptr, size_t len, size_t seed)
   {
     pthread_t v;
     memcpy(&v, ptr, sizeof v);
-    for (int i = 0; i < nth; i++)
-      if (th[i].st != FREE && th[i].st != DONE && th[i].real == v)
+    // newest thread with this pthread_t wins: the value stays mapped after the thread finished (containers may still
+    // hold its id until it is joined); a reused pthread_t resolves to the newer thread
+    for (int i = nth - 1; i >= 0; i--)
+      if (th[i].st != FREE && th[i].real == v)
       {
         uint64_t idx = 0x7468720000000000ull + (uint64_t)i;
         memcpy(tmp, &idx, 8);
